@@ -50,21 +50,46 @@ class _Direct(ast.NodeVisitor):
             self.writes.setdefault(self.alias[name], []).append(node)
             self.excl[id(node)] = self._guards()
 
+    @staticmethod
+    def _isinstance_of(t):
+        """(name, class text, positive?) for `isinstance(name, C)` / `not isinstance(name, C)`"""
+        pos = True
+        if isinstance(t, ast.UnaryOp) and isinstance(t.op, ast.Not):
+            t, pos = t.operand, False
+        if isinstance(t, ast.Call) and attr_chain(t.func) == "isinstance" and len(t.args) == 2 and isinstance(t.args[0], ast.Name):
+            return t.args[0].id, dump(t.args[1]), pos
+        return None
+
+    @staticmethod
+    def _leaves(stmts) -> bool:
+        return bool(stmts) and isinstance(stmts[-1], (ast.Return, ast.Raise, ast.Continue, ast.Break))
+
+    def visit_block(self, stmts):
+        """statements in order; after `if isinstance(x, C): <leaves>` the rest of the block runs under `not isinstance(x, C)`"""
+        pushed = 0
+        for st in stmts:
+            self.visit(st)
+            if isinstance(st, ast.If) and not st.orelse and self._leaves(st.body):
+                g = self._isinstance_of(st.test)
+                if g and g[2]:
+                    self.not_isinstance.append((g[0], g[1]))
+                    pushed += 1
+        for _ in range(pushed):
+            self.not_isinstance.pop()
+
     def visit_If(self, node):
         self.visit(node.test)
-        t = node.test
-        g = None
-        if isinstance(t, ast.UnaryOp) and isinstance(t.op, ast.Not) and isinstance(t.operand, ast.Call) and attr_chain(t.operand.func) == "isinstance" \
-                and len(t.operand.args) == 2 and isinstance(t.operand.args[0], ast.Name):
-            g = (t.operand.args[0].id, dump(t.operand.args[1]))
-        if g:
-            self.not_isinstance.append(g)
-        for st in node.body:
-            self.visit(st)
-        if g:
+        g = self._isinstance_of(node.test)
+        if g and not g[2]:
+            self.not_isinstance.append((g[0], g[1]))
+        self.visit_block(node.body)
+        if g and not g[2]:
             self.not_isinstance.pop()
-        for st in node.orelse:
-            self.visit(st)
+        if g and g[2]:
+            self.not_isinstance.append((g[0], g[1]))
+        self.visit_block(node.orelse)
+        if g and g[2]:
+            self.not_isinstance.pop()
 
     def visit_Assign(self, node):
         self.visit(node.value)
@@ -169,8 +194,7 @@ def param_writes(repo: Repo) -> Dict[str, Dict[str, List[str]]]:
     funcs: Dict[str, FuncInfo] = {}
     for fi in repo.all_functions():
         d = _Direct(set(_params(fi)))
-        for st in fi.node.body:
-            d.visit(st)
+        d.visit_block(fi.node.body)
         direct[fi.fq] = d
         funcs[fi.fq] = fi
     out: Dict[str, Dict[str, List[str]]] = {}
